@@ -42,6 +42,14 @@ theorem frame_alloc_bound_any_threshold (thr : Nat) (bs : Bytes) :
 theorem steps_linear (t : UInt8) (bs : Bytes) : decode t bs ≠ .error .fuel ∧ fuelFor bs = 3 * bs.length + 3 :=
   ⟨decode_total t bs, rfl⟩
 
+/-- What a successful decode returns is never larger than what it read: the encoding of the value
+and the untouched remainder together are exactly as long as the input, so the memory a decoded
+value stands for is bounded by the bytes consumed. -/
+theorem decoded_value_no_larger_than_input (t : UInt8) (bs : Bytes) (v : WValue) (rest : Bytes)
+    (h : decode t bs = .ok (v, rest)) : (enc v).length + rest.length = bs.length := by
+  have := (dec_canonical h).1
+  rw [← this, List.length_append]
+
 /-- A successful decode never yields a container with more elements than input bytes. -/
 theorem decoded_list_count_le_input (f : Nat) (bs : Bytes) (et : UInt8) (items : List WValue) (rest : Bytes)
     (h : dec f 15 bs = .ok (.list et items, rest)) : items.length ≤ bs.length := by
